@@ -1,4 +1,72 @@
-(* C04 placeholder until ExpandProofs lands: the model is total on slots *)
-From Pcfg Require Import Expand.
-Theorem C04_model_defined : forall up om, expand up om nil nil None = None.
-Proof. reflexivity. Qed.
+(* C04 - a pre-terminal expands to exactly the product of its terminal groups.
+   Property theorems only (proofs in ExpandProofs.v). *)
+From Coq Require Import List Arith NArith.
+From Pcfg Require Import Expand ExpandProofs.
+Import ListNotations.
+
+(* well-formed pre-terminal (every C_n follows an A_n, words and masks have n > 0
+   characters, no empty group): the printed lines are the product, in structure
+   order, with each mask applied to the word before it; the count is their number *)
+Theorem C04_expand_is_product :
+  forall (upper_c : N -> str) (omen : str -> list str) segs cur,
+  segs <> [] -> Forall seg_ok' segs ->
+  expand upper_c omen (flat_map slots_of segs) cur None =
+    Some (map (app cur) (denote upper_c segs), length (denote upper_c segs)).
+Proof. exact (fun u o segs cur => C04_expand_is_product_cur u o segs cur). Qed.
+
+(* zero-length alpha groups are excluded for a reason: cur[:-0] is "" in Python *)
+Theorem C04_refuted_zero_length_alpha :
+  forall (upper_c : N -> str) (omen : str -> list str),
+  segs_refute <> [] /\ Forall seg_ok segs_refute /\
+  expand upper_c omen (flat_map slots_of segs_refute) [] None <>
+    Some (denote upper_c segs_refute, length (denote upper_c segs_refute)).
+Proof.
+  intros u o. destruct (C04_expand_is_product_refuted u o) as (H1 & H2 & _ & _ & H5).
+  exact (conj H1 (conj H2 H5)).
+Qed.
+
+(* the count the guesser reports is the number of lines it wrote, for ANY parse tree *)
+Theorem C04_count_is_lines :
+  forall (upper_c : N -> str) (omen : str -> list str) pt cur l out k,
+  expand upper_c omen pt cur l = Some (out, k) -> k = length out.
+Proof. exact C04_count_is_lines. Qed.
+
+(* --limit N inside a pre-terminal: exactly the first N lines *)
+Theorem C04_limit :
+  forall (upper_c : N -> str) (omen : str -> list str) segs cur n,
+  segs <> [] -> Forall seg_ok' segs -> n >= 1 ->
+  expand upper_c omen (flat_map slots_of segs) cur (Some n) =
+    Some (firstn n (map (app cur) (denote upper_c segs)), Nat.min n (length (denote upper_c segs))).
+Proof. exact (fun u o segs cur n => C04_limit u o segs cur n). Qed.
+
+Theorem C04_limit_zero_means_unlimited :
+  forall (upper_c : N -> str) (omen : str -> list str) pt cur,
+  expand upper_c omen pt cur (Some 0) = expand upper_c omen pt cur None.
+Proof. exact C04_limit_zero_is_none. Qed.
+
+(* every combination once: the product has the product of the group sizes,
+   an alpha segment contributes |words| * |masks| choices *)
+Theorem C04_each_once :
+  forall (upper_c : N -> str) segs,
+  length (denote upper_c segs) = fold_right Nat.mul 1 (map (fun s => length (seg_choices upper_c s)) segs).
+Proof. exact C04_each_once. Qed.
+Theorem C04_alpha_choices :
+  forall (upper_c : N -> str) ws ms, length (seg_choices upper_c (SegAlpha ws ms)) = length ws * length ms.
+Proof. exact C04_alpha_choices. Qed.
+
+(* a Markov pre-terminal prints the strings of its level (first value of the
+   group only - which is why the loader must keep one level per group) *)
+Theorem C04_markov :
+  forall (upper_c : N -> str) (omen : str -> list str) lv more cur l,
+  expand upper_c omen [{| scat := CatM; svals := lv :: more |}] cur l =
+    Some (omen_emit omen lv l, length (omen_emit omen lv l)).
+Proof. exact C04_markov. Qed.
+
+(* non-vacuity: 2 x (2 words x 2 masks) x 3 = 24 guesses, by computation *)
+Theorem C04_example : expand up_ascii (fun _ => []) (flat_map slots_of segs_ex) [] None =
+                      Some (denote up_ascii segs_ex, 24).
+Proof. exact C04_example_product. Qed.
+
+Print Assumptions C04_expand_is_product.
+Print Assumptions C04_limit.
+Print Assumptions C04_count_is_lines.
